@@ -159,6 +159,11 @@ func convertVMFunctionToTypeContext(ctx context.Context, rv reflect.Value, rt re
 		// for runVMFunction first arg is always context
 		args = append(args, reflect.ValueOf(ctx))
 		for i := 0; i < rt.NumIn(); i++ {
+			if rv.Type().IsVariadic() && i >= rv.Type().NumIn()-2 {
+				// goes into the variadic tail of the VM function, which holds plain values
+				args = append(args, in[i])
+				continue
+			}
 			// have to do the double reflect.ValueOf that runVMFunction expects
 			args = append(args, reflect.ValueOf(in[i]))
 		}
